@@ -32,6 +32,12 @@ pub struct Gen {
     /// "mixed": everything; "safe": only in-contract arguments; "mut": BytesMut-centred;
     /// "contract": many out-of-contract arguments
     pub profile: String,
+    /// focus mode: for a few steps the driver stays with one handle, drops (or unsplits) the
+    /// other handles on its buffer and applies the operations whose behaviour depends on being
+    /// the only holder (conversions, reserve / try_reclaim, truncate + convert, ...).  A uniform
+    /// choice among 6-8 handles almost never gets a buffer back to a single holder.
+    pub focus: Option<usize>,
+    pub focus_left: usize,
 }
 
 fn rel(r: &str, d: i64) -> Option<Arg> {
@@ -52,7 +58,7 @@ impl Gen {
         for _ in 0..4 {
             r.next();
         }
-        Gen { r, maxh, maxlen, profile: profile.to_string() }
+        Gen { r, maxh, maxlen, profile: profile.to_string(), focus: None, focus_left: 0 }
     }
 
     fn bad_pct(&self) -> usize {
@@ -207,9 +213,129 @@ impl Gen {
         Op { op: "m_from_slice".into(), a: abs(n), ..Default::default() }
     }
 
+    /// One step of a focus session (see `focus`).  Stages: 0 = maybe split the handle at a
+    /// boundary-biased position; 1 = get rid of every other handle on its buffer (drop it, or
+    /// unsplit with it, in either direction); 2 = shorten / clear / reclaim; 3 = convert
+    /// (freeze, into_mut, try_into_mut, into_vec); then possibly once more from stage 0 with the
+    /// converted handle.
+    fn next_focus(&mut self, m: &Machine) -> Option<Op> {
+        let live = m.live_ids();
+        let f = match self.focus {
+            Some(f) if m.hs.get(f).map(|x| x.is_some()).unwrap_or(false) => f,
+            // the focus was consumed by a conversion: follow the newest handle
+            Some(_) => *live.last()?,
+            None => return None,
+        };
+        self.focus = Some(f);
+        let v = m.view(f)?;
+        let room = live.len() < self.maxh;
+        let h = f;
+        loop {
+            let stage = self.focus_left;
+            if stage >= 8 {
+                self.focus = None;
+                return None;
+            }
+            self.focus_left += 1;
+            match (stage % 4, m.hs[f].as_ref().unwrap()) {
+                (0, H::M(mm)) if room && self.r.chance(60) => {
+                    let (len, cap) = (mm.len(), mm.capacity());
+                    return Some(match self.r.below(6) {
+                        0 => Op { op: "m_split".into(), h, ..Default::default() },
+                        1 => Op { op: "m_split_to".into(), h, a: abs(0), ..Default::default() },
+                        2 => Op { op: "m_split_to".into(), h, a: rel("len", 0), ..Default::default() },
+                        3 => Op { op: "m_split_off".into(), h, a: if self.r.chance(50) { rel("len", 0) } else { rel("cap", 0) }, ..Default::default() },
+                        4 => Op { op: "m_split_off".into(), h, a: self.cap_index(len, cap), ..Default::default() },
+                        _ => Op { op: "m_split_to".into(), h, a: self.index(len), ..Default::default() },
+                    });
+                }
+                (0, H::B(b)) if room && self.r.chance(60) => {
+                    let len = b.len();
+                    return Some(match self.r.below(5) {
+                        0 => Op { op: "b_clone".into(), h, ..Default::default() },
+                        1 => Op { op: "b_split_off".into(), h, a: self.index(len), ..Default::default() },
+                        2 => Op { op: "b_split_to".into(), h, a: self.index(len), ..Default::default() },
+                        3 => {
+                            let x = self.r.below(len + 1);
+                            let y = x + self.r.below(len - x + 1);
+                            Op { op: "b_slice".into(), h, a: abs(x), b: abs(y), ..Default::default() }
+                        }
+                        _ => Op { op: "b_copy_to_bytes".into(), h, a: self.index(len), ..Default::default() },
+                    });
+                }
+                (1, _) if v.a > 0 => {
+                    let sharers: Vec<usize> = live
+                        .iter()
+                        .copied()
+                        .filter(|&o| o != f && m.view(o).map(|w| w.a == v.a || (w.a2 == v.a && w.len == 0)).unwrap_or(false))
+                        .collect();
+                    if sharers.is_empty() {
+                        continue;
+                    }
+                    self.focus_left -= 1; // stay in this stage until the handle is alone
+                    let o = sharers[self.r.below(sharers.len())];
+                    let both_m = matches!(m.hs[f], Some(H::M(_))) && matches!(m.hs[o], Some(H::M(_)));
+                    if both_m && self.r.chance(50) {
+                        return Some(if self.r.chance(50) {
+                            Op { op: "m_unsplit".into(), h: f, o, ..Default::default() }
+                        } else {
+                            self.focus = Some(o);
+                            Op { op: "m_unsplit".into(), h: o, o: f, ..Default::default() }
+                        });
+                    }
+                    return Some(Op { op: "drop".into(), h: o, ..Default::default() });
+                }
+                (2, H::M(mm)) if self.r.chance(60) => {
+                    let len = mm.len();
+                    return Some(match self.r.below(8) {
+                        0 => Op { op: "m_clear".into(), h, ..Default::default() },
+                        1 => Op { op: "m_advance".into(), h, a: self.index(len), ..Default::default() },
+                        2 => Op { op: "m_truncate".into(), h, a: self.index(len), ..Default::default() },
+                        3 | 4 => Op { op: "m_try_reclaim".into(), h, a: self.reserve_arg(), ..Default::default() },
+                        5 => Op { op: "m_reserve".into(), h, a: self.reserve_arg(), ..Default::default() },
+                        6 => Op { op: "m_extend".into(), h, a: abs(self.r.below(self.maxlen + 1)), mode: self.r.below(5) as i64, ..Default::default() },
+                        _ => Op { op: "m_resize".into(), h, a: abs(self.r.below(2 * self.maxlen + 1)), val: 200 + self.r.below(16) as u8, ..Default::default() },
+                    });
+                }
+                (2, H::B(b)) if self.r.chance(50) => {
+                    let len = b.len();
+                    return Some(match self.r.below(3) {
+                        0 => Op { op: "b_truncate".into(), h, a: self.index(len), ..Default::default() },
+                        1 => Op { op: "b_advance".into(), h, a: self.index(len), ..Default::default() },
+                        _ => Op { op: "b_clear".into(), h, ..Default::default() },
+                    });
+                }
+                (3, H::M(_)) => {
+                    return Some(if self.r.chance(80) { Op { op: "m_freeze".into(), h, ..Default::default() } } else { Op { op: "m_into_vec".into(), h, ..Default::default() } });
+                }
+                (3, H::B(_)) => {
+                    return Some(match self.r.below(5) {
+                        0 | 1 => Op { op: "b_into_mut".into(), h, ..Default::default() },
+                        2 | 3 => Op { op: "b_try_into_mut".into(), h, ..Default::default() },
+                        _ => Op { op: "b_into_vec".into(), h, ..Default::default() },
+                    });
+                }
+                (3, H::V(_)) => return Some(Op { op: "v_into_bytes".into(), h, ..Default::default() }),
+                _ => continue,
+            }
+        }
+    }
+
     pub fn next(&mut self, m: &Machine) -> Op {
         if self.profile == "adjacent" {
             return self.next_adjacent(m);
+        }
+        if self.focus.is_none() && self.r.chance(10) {
+            let live = m.live_ids();
+            if !live.is_empty() {
+                self.focus = Some(live[self.r.below(live.len())]);
+                self.focus_left = 0; // stage counter
+            }
+        }
+        if self.focus.is_some() {
+            if let Some(op) = self.next_focus(m) {
+                return op;
+            }
         }
         let live = m.live_ids();
         let mutc = self.profile == "mut";
